@@ -66,10 +66,13 @@ func c08R2(c *Ctx, r *c08Roles) {
 				lbl := c08MutationLabel(M)
 				seen[lbl]++
 				key := fmt.Sprintf("%s|%s#%d", fname, lbl, seen[lbl])
-				ct := newCut().Calls(saves).Edges(off...).Edges(c08InfeasibleAfter(M)...)
-				ret := c08NilReturnAfter(M, ct)
+				mkCut := func() *cut { return newCut().Calls(saves).Edges(off...).Edges(c08InfeasibleAfter(M)...) }
+				ret := c08NilReturnAfter(M, mkCut())
 				if ret == nil {
 					c.OK(R2, key, M.Pos(), "every path from this change of the tag map to a nil-error return calls saveIndex (or takes the AutoSaveIndex==false edge)")
+				} else if g := c08BlamedGuards(f, r, M, mkCut, func(ct *cut) bool { return c08NilReturnAfter(M, ct) != nil }); len(g) > 0 {
+					c.Undecided(R2, key, M.Pos(), "after this change of the tag map, saveIndex runs only under a condition the rule cannot relate to the change ("+strings.Join(g, "; ")+
+						"); if the condition can be false after a change, index.json is not updated (return at "+c.P.Pos(ret.Pos())+")")
 				} else {
 					c.Violation(R2, key, M.Pos(), "the tag map is changed here but the function can return success at "+c.P.Pos(ret.Pos())+
 						" without saving index.json although AutoSaveIndex is on: the layout on disk keeps the old tags — a reopened store resolves references (and lists tags) the live store no longer has")
@@ -191,6 +194,26 @@ func c08IsStripHelper(p *Prog, g *ssa.Function) bool {
 	return uses
 }
 
+// c08FreshMap: every value m may denote is a map made in this function (make / maps.Clone).
+func c08FreshMap(m ssa.Value) bool {
+	rs := Roots(m)
+	if len(rs) == 0 {
+		return false
+	}
+	for _, rt := range rs {
+		switch u := rt.(type) {
+		case *ssa.MakeMap:
+		case *ssa.Call:
+			if CalleeName(u) != "maps.Clone" {
+				return false
+			}
+		default:
+			return false
+		}
+	}
+	return true
+}
+
 func c08R1(c *Ctx, r *c08Roles) {
 	const R1 = "C08.R1.index-projection"
 	c.Expect(R1, 8)
@@ -282,6 +305,16 @@ func c08R1(c *Ctx, r *c08Roles) {
 				p1, p1Emits = p, mine
 			}
 		}
+		anyNeq := false
+		for i := range passes {
+			if len(passes[i].neq) > 0 {
+				anyNeq = true
+			}
+		}
+		if !anyNeq {
+			c.Undecided(R1, sn+"|every-tagged-entry-emitted", S.Pos(), "no range over s.tagResolver.Map() with a `ref != desc.Digest.String()` test was found: projection shape not recognised")
+			continue
+		}
 		if !c.Check(R1, sn+"|every-tagged-entry-emitted", S.Pos(), p1 != nil, ifelse(p1 != nil, "a pass over the resolver map appends every entry with ref != digest to the manifests written to index.json",
 			"no pass over the resolver map appends every ref != digest entry: a tag can be missing from index.json, the reopened store does not resolve it")) {
 			continue
@@ -312,21 +345,19 @@ func c08R1(c *Ctx, r *c08Roles) {
 					okAnn, why = false, "the entry's Annotations are not replaced before it is appended (the reference name is not recorded)"
 					continue
 				}
-				rs := Roots(st.Val)
-				mm, isMake := rs[0].(*ssa.MakeMap)
-				if len(rs) != 1 || !isMake {
+				if !c08FreshMap(st.Val) {
 					okAnn, why = false, "the annotations map assigned to the entry is not freshly made in this function (writing the reference name into it would modify the descriptor held by the resolver)"
 					continue
 				}
-				fresh = mm
+				fresh = st.Val
 				set := false
-				for _, ref := range *mm.Referrers() {
-					if mu, ok := ref.(*ssa.MapUpdate); ok && mu.Map == ssa.Value(mm) {
+				AllInstrs(S, func(in ssa.Instruction) {
+					if mu, ok := in.(*ssa.MapUpdate); ok && c09SameKey(mu.Map, st.Val) {
 						if s, ok := constString(mu.Key); ok && s == refName && c09SameKey(mu.Value, p1.k) && Dominates(mu, ld) {
 							set = true
 						}
 					}
-				}
+				})
 				if !set {
 					okAnn, why = false, "annotations["+refName+"] is not set to the reference of the entry"
 				}
@@ -341,8 +372,8 @@ func c08R1(c *Ctx, r *c08Roles) {
 					copied = true
 				}
 			}
-			if rs := Roots(fresh); len(rs) == 1 {
-				if call, ok := rs[0].(*ssa.Call); ok && CalleeName(call) == "maps.Clone" && p1.obj.fieldOf(call.Call.Args[0], "Annotations") {
+			for _, rt := range Roots(fresh) {
+				if call, ok := rt.(*ssa.Call); ok && CalleeName(call) == "maps.Clone" && p1.obj.fieldOf(call.Call.Args[0], "Annotations") {
 					copied = true
 				}
 			}
@@ -448,10 +479,8 @@ func c08R1(c *Ctx, r *c08Roles) {
 				if m == nil {
 					return
 				}
-				for _, rt := range Roots(m) {
-					if _, isMake := rt.(*ssa.MakeMap); !isMake {
-						okFresh, whyFresh = false, FnName(f)+" writes a map it did not make at "+c.P.Pos(in.Pos())
-					}
+				if !c08FreshMap(m) {
+					okFresh, whyFresh = false, FnName(f)+" writes a map it did not make at "+c.P.Pos(in.Pos())
 				}
 			})
 		}
@@ -744,7 +773,7 @@ var c08Mutants = []Mutant{
 	{Name: "tag-saved-only-for-named-refs", File: "content/oci/oci.go",
 		Old:    "\tif s.AutoSaveIndex {\n\t\treturn s.saveIndex()\n\t}\n\treturn nil\n}\n\n// Resolve",
 		New:    "\tif s.AutoSaveIndex && reference != dgst {\n\t\treturn s.saveIndex()\n\t}\n\treturn nil\n}\n\n// Resolve",
-		Expect: "C08.R2.persist-tag-mutations|(*~/content/oci.Store).Push|(*~/content/oci.Store).tag"}, // the helper now delegates: reported at its exported callers
+		Expect: "C08.R2.persist-tag-mutations|(*~/content/oci.Store).tag"},
 	{Name: "delete-forgets-untagged-flag", File: "content/oci/oci.go",
 		Old: "\t\t\ts.tagResolver.Untag(reference)\n\t\t\tuntagged = true\n", New: "\t\t\ts.tagResolver.Untag(reference)\n",
 		Expect: "C08.R2.persist-tag-mutations|(*~/content/oci.Store).Delete|(*~/content/oci.Store).delete"},
